@@ -103,6 +103,7 @@ class Ctx:
         self.current_contract = None
         self.approx = False          # concrete replay: float comparisons with tolerance (rel 1e-9, abs 1e-12)
         self.concrete = False        # concrete replay: heap reads return the real objects' values
+        self.sym_prefix = ""         # relational runs: input symbols of the second run carry a prefix
         self.uninterpreted = {}
         self.snapshot_root = None
         self.config = None
@@ -176,7 +177,7 @@ def find_function_node(tree, qualname):
     return node
 
 
-DROP_CALL_RECEIVERS = ("logger",)
+DROP_CALL_RECEIVERS = ("logger", "traceback")
 
 # two-line wrappers around the pint registry that are always executed in place (their body is the real source)
 DEFAULT_INLINE = {"geophires_x/Parameter.py::HasQuantity.quantity", "geophires_x/GeoPHIRESUtils.py::quantity",
@@ -254,19 +255,20 @@ class Executor:
             symbolic_field = False
         if not symbolic_field:
             return self.wrap(real, path)
+        sp = self.ctx.sym_prefix + path
         if isinstance(real, bool):
-            v = z3.Bool(path)
+            v = z3.Bool(sp)
         elif isinstance(real, int) and type(owner).__name__ == "OutputParameter":
-            v = z3.Real(path)      # computed outputs are numbers; the constructor's literal 0 is only a placeholder
+            v = z3.Real(sp)      # computed outputs are numbers; the constructor's literal 0 is only a placeholder
         elif isinstance(real, int):
-            v = z3.Int(path)
+            v = z3.Int(sp)
         elif isinstance(real, float):
-            v = z3.Real(path)
+            v = z3.Real(sp)
         elif isinstance(real, (list, np.ndarray)):
             kind = "nd" if isinstance(real, np.ndarray) else "list"
-            n = z3.Int(path + ".len")
+            n = z3.Int(sp + ".len")
             self.ctx.global_axioms.append(n >= 0)
-            f = self.ctx.uf(path, z3.IntSort(), z3.RealSort())
+            f = self.ctx.uf(sp, z3.IntSort(), z3.RealSort())
             v = Seq(kind, n, fn=lambda j, f=f: f(j), et="real", uf=f)
         else:
             return self.wrap(real, path)
@@ -1075,7 +1077,7 @@ class Executor:
             v = f.value
             if isinstance(v, ast.Attribute) and v.attr in DROP_CALL_RECEIVERS:
                 return True
-            if isinstance(v, ast.Name) and v.id in ("logger", "_log", "logging"):
+            if isinstance(v, ast.Name) and v.id in ("logger", "_log", "logging", "traceback"):
                 return True
         return False
 
